@@ -864,11 +864,9 @@ init_v1(kdump_ctx_t *ctx, void *hdr)
 	lkcdp->compression = DUMP_COMPRESS_RLE;
 	if (!uts_looks_sane(&dh32->dh_utsname) &&
 	    uts_looks_sane(&dh64->dh_utsname))
-		set_uts(ctx, &dh64->dh_utsname);
+		return set_uts(ctx, &dh64->dh_utsname);
 	else
-		set_uts(ctx, &dh32->dh_utsname);
-
-	return KDUMP_OK;
+		return set_uts(ctx, &dh32->dh_utsname);
 }
 
 static kdump_status
@@ -883,15 +881,13 @@ init_v2(kdump_ctx_t *ctx, void *hdr)
 		lkcdp->compression = (lkcdp->version >= LKCD_DUMP_V5)
 			? dump32toh(ctx, dh64->dh_dump_compress)
 			: DUMP_COMPRESS_RLE;
-		set_uts(ctx, &dh64->dh_utsname);
+		return set_uts(ctx, &dh64->dh_utsname);
 	} else {
 		lkcdp->compression = (lkcdp->version >= LKCD_DUMP_V5)
 			? dump32toh(ctx, dh32->dh_dump_compress)
 			: DUMP_COMPRESS_RLE;
-		set_uts(ctx, &dh32->dh_utsname);
+		return set_uts(ctx, &dh32->dh_utsname);
 	}
-
-	return KDUMP_OK;
 }
 
 static kdump_status
@@ -906,9 +902,7 @@ init_v8(kdump_ctx_t *ctx, void *hdr)
 		lkcdp->last_offset = lkcdp->data_offset;
 	}
 
-	set_uts(ctx, &dh->dh_utsname);
-
-	return KDUMP_OK;
+	return set_uts(ctx, &dh->dh_utsname);
 }
 
 static kdump_status
